@@ -266,6 +266,9 @@ pub enum Step {
     /// other members: id -> data centre index
     Members(BTreeMap<u8, usize>),
     Select(usize),
+    /// a selection (level) is in flight while the snapshot is published: (members, level, polls before the selection
+    /// starts, polls before the snapshot is published)
+    MembersDuringSelect(BTreeMap<u8, usize>, usize, u8, u8),
 }
 
 #[derive(Debug, Clone)]
@@ -342,7 +345,11 @@ impl Prop for NodePart {
                         }
                     },
                 }
-                steps.push(Step::Members(cur.clone()));
+                if src.chance(1, 3) {
+                    steps.push(Step::MembersDuringSelect(cur.clone(), src.below(LEVELS.len()), src.below(4) as u8, src.below(4) as u8));
+                } else {
+                    steps.push(Step::Members(cur.clone()));
+                }
             } else {
                 steps.push(Step::Select(src.below(LEVELS.len())));
             }
@@ -360,6 +367,7 @@ impl Prop for NodePart {
             .iter()
             .map(|s| match s {
                 Step::Members(m) => json!({"members(id->dc)": m}),
+                Step::MembersDuringSelect(m, l, a, b) => json!({"members(id->dc)": m, "while_selecting": format!("{:?}", LEVELS[*l]), "polls_before_select": a, "polls_before_publish": b}),
                 Step::Select(l) => json!({"select": format!("{:?}", LEVELS[*l])}),
             })
             .collect::<Vec<_>>())
@@ -369,7 +377,7 @@ impl Prop for NodePart {
         "one real DatacakeNode (id 1, data-centre names lower-case / mixed case / non-ASCII with a space / the unconfigured default): 2-15 steps, each either a membership snapshot over ids 2-9 in 3 data \
          centres (nodes join, a node leaves, a whole data centre leaves, everybody leaves, a node is replaced by another \
          one or moves to another data centre in ONE update so the member count stays the same) published via hook \
-         H-members, or DatacakeNode::select_nodes with a generated level (selector actor, cursors and result cache \
+         H-members (one snapshot in three while a selection of a generated level is in flight, which may answer from either membership), or DatacakeNode::select_nodes with a generated level (selector actor, cursors and result cache \
          included); oracle: the same validity predicate as part `selector` (the local node = the advertised address; half of the cases \
          listen on a different address), judged against the snapshot current at \
          the time of the call; non-trivial = a selection after a snapshot that removed a node or a data centre"
@@ -407,6 +415,39 @@ async fn run_node(case: &NodeCase) -> Outcome {
                 layout.entry(dc0.clone()).or_default().push(me);
                 for (id, dc) in m {
                     layout.entry(dc_name(style, *dc)).or_default().push(node_addr(*id));
+                }
+                if prev.keys().any(|k| !m.contains_key(k)) {
+                    removed_something = true;
+                }
+                prev = m.clone();
+            },
+            Step::MembersDuringSelect(m, l, ya, yb) => {
+                let mut members: Vec<ClusterMember> =
+                    m.iter().map(|(id, dc)| ClusterMember::new(*id, node_addr(*id), dc_name(style, *dc))).collect();
+                members.push(ClusterMember::new(1, me, dc0.clone()));
+                let old_layout = layout.clone();
+                layout = Layout::new();
+                layout.entry(dc0.clone()).or_default().push(me);
+                for (id, dc) in m {
+                    layout.entry(dc_name(style, *dc)).or_default().push(node_addr(*id));
+                }
+                let select = async {
+                    for _ in 0..*ya {
+                        tokio::task::yield_now().await;
+                    }
+                    node.select_nodes(LEVELS[*l]).await
+                };
+                let publish = async {
+                    for _ in 0..*yb {
+                        tokio::task::yield_now().await;
+                    }
+                    node.verif_set_members(members);
+                    tokio::time::sleep(std::time::Duration::from_millis(1)).await;
+                };
+                let (res, _) = tokio::join!(select, publish);
+                // the selection overlapped the update: it may answer from either membership
+                if judge(LEVELS[*l], &old_layout, me, &dc0, &res, &format!("step {i} (old membership)")).is_err() {
+                    judge(LEVELS[*l], &layout, me, &dc0, &res, &format!("step {i} (selection overlapping the update, judged against the new membership as well as the old one)"))?;
                 }
                 if prev.keys().any(|k| !m.contains_key(k)) {
                     removed_something = true;
